@@ -9,6 +9,7 @@ import Mathlib.Algebra.Order.Field.Basic
 import Mathlib.Tactic.Linarith
 import Mathlib.Tactic.Ring
 import Mathlib.Tactic.Module
+import Mathlib.Tactic.LinearCombination
 
 open OdlModel.Solvers
 open RealInnerProductSpace
@@ -219,5 +220,18 @@ theorem power_step (A : E →ₗ[ℝ] F) (At : F →ₗ[ℝ] E) (c : ℝ) (hc0 :
 `p = prox v  ↔  (v - p)/τ ∈ ∂f p`  (for a proper convex lsc `f`: `prox = prox_{τ f}`, C07). -/
 def IsProx {X : Type} [AddCommGroup X] [Module ℝ X] (prox : X → X) (τ : ℝ) (sub : X → Set X) : Prop :=
   ∀ v p, prox v = p ↔ τ⁻¹ • (v - p) ∈ sub p
+
+
+/-- `Σ L_i^*` is linear in the family it is applied to. -/
+theorem sumAdj_lin {X Y : Type} [AddCommGroup X] [Module ℝ X] [AddCommGroup Y] [Module ℝ Y]
+    (Lt : Nat → Y →ₗ[ℝ] X) (f g : Nat → Y) (a b : ℝ) (k : Nat) :
+    sumAdj (fun i => ⇑(Lt i)) (fun i => lincomb a (f i) b (g i)) k =
+      a • sumAdj (fun i => ⇑(Lt i)) f k + b • sumAdj (fun i => ⇑(Lt i)) g k := by
+  induction k with
+  | zero => simp only [sumAdj, lincomb, map_add, map_smul]
+  | succ k ih =>
+    simp only [sumAdj]
+    rw [ih]
+    simp only [lincomb, map_add, map_smul]; module
 
 end OdlModel.Solvers
